@@ -88,6 +88,7 @@ Definition typed (phs : list ph) (heap : list clo) (f : fn) (t : ty) : Prop :=
   match f with
   | FGen g => exists c, nth_error heap g = Some c /\ clo_ty c = t
   | FPh p => exists c, nth_error phs p = Some c /\ ph_ty c = t /\ ph_pub c = true
+  | FErr => False
   end.
 
 (* The cell is finished: published, counter back to zero, variable written. *)
@@ -105,11 +106,12 @@ Proof. split; [exists []; rewrite app_nil_r; auto | auto]. Qed.
 
 Lemma typed_ext phs heap phs' heap' f t : ext phs heap phs' heap' -> typed phs heap f t -> typed phs' heap' f t.
 Proof.
-  intros [[more ->] Hc] H. destruct f as [g|p]; simpl in *.
+  intros [[more ->] Hc] H. destruct f as [g|p|]; simpl in *.
   - destruct H as (c & H1 & H2). exists c. split; auto. apply nth_error_app_l; auto.
   - destruct H as (c & H1 & H2 & H3). destruct (Hc _ _ H1) as [E | (_ & c' & E1 & E2 & E3)].
     + exists c; auto.
     + exists c'. repeat split; auto. congruence.
+  - exact H.
 Qed.
 
 Lemma Forall2_typed_ext phs heap phs' heap' fs ts :
@@ -125,11 +127,12 @@ Definition fty (phs : list ph) (heap : list clo) (f : fn) : option ty :=
   match f with
   | FGen g => option_map clo_ty (nth_error heap g)
   | FPh p => option_map ph_ty (nth_error phs p)
+  | FErr => None
   end.
 
 Lemma typed_fty phs heap f t : typed phs heap f t -> fty phs heap f = Some t.
 Proof.
-  destruct f; simpl; [intros (c & -> & <-) | intros (c & -> & <- & _)]; reflexivity.
+  destruct f; simpl; [intros (c & -> & <-) | intros (c & -> & <- & _) | contradiction]; reflexivity.
 Qed.
 
 (* ------------------------------------------------------------------------- *)
@@ -139,7 +142,7 @@ Qed.
 Definition cell_ok (heap : list clo) (c : ph) : Prop :=
   (ph_pub c = false -> ph_var c = None) /\
   (ph_pub c = true -> ph_var c = None -> ph_cnt c = 1) /\
-  (forall f, ph_var c = Some f -> exists g k, f = FGen g /\ nth_error heap g = Some k /\ clo_ty k = ph_ty c).
+  (forall f, ph_var c = Some f -> f = FErr \/ exists g k, f = FGen g /\ nth_error heap g = Some k /\ clo_ty k = ph_ty c).
 
 (* one activation of the cache request, by program counter *)
 Definition frame_ok (phs : list ph) (heap : list clo) (fr : frame) : Prop :=
@@ -151,8 +154,12 @@ Definition frame_ok (phs : list ph) (heap : list clo) (fr : frame) : Prop :=
             exists tys, kidtypes tt (f_ty fr) = tys ++ f_todo fr /\ Forall2 (typed phs heap) (f_got fr) tys
   | PWrite => (exists c, nth_error phs (f_ph fr) = Some c /\ ph_ty c = f_ty fr /\ ph_cnt c = 1 /\ ph_var c = None /\ ph_pub c = true) /\
               Forall2 (typed phs heap) (f_got fr) (kidtypes tt (f_ty fr))
-  | PDone => exists c, nth_error phs (f_ph fr) = Some c /\ ph_ty c = f_ty fr /\ ph_cnt c = 1 /\ ph_var c <> None /\ ph_pub c = true
-  | PStore => exists c, nth_error phs (f_ph fr) = Some c /\ ph_ty c = f_ty fr /\ ph_cnt c = 0 /\ ph_var c <> None /\ ph_pub c = true
+  | PDone => exists c, nth_error phs (f_ph fr) = Some c /\ ph_ty c = f_ty fr /\ ph_cnt c = 1 /\
+                       (exists g, ph_var c = Some (FGen g) /\ typed phs heap (FGen g) (f_ty fr)) /\ ph_pub c = true
+  | PStore => exists c, nth_error phs (f_ph fr) = Some c /\ ph_ty c = f_ty fr /\ ph_cnt c = 0 /\
+                        (exists g, ph_var c = Some (FGen g) /\ typed phs heap (FGen g) (f_ty fr)) /\ ph_pub c = true
+  | PDel | PWErr => exists c, nth_error phs (f_ph fr) = Some c /\ ph_ty c = f_ty fr /\ ph_cnt c = 1 /\ ph_var c = None /\ ph_pub c = true
+  | PDErr => exists c, nth_error phs (f_ph fr) = Some c /\ ph_ty c = f_ty fr /\ ph_cnt c = 1 /\ ph_var c = Some FErr /\ ph_pub c = true
   end.
 
 (* a stack of nested requests (innermost first) whose outermost request is for type t *)
@@ -221,6 +228,10 @@ Proof.
   - rewrite Hc by congruence. destruct H as [H1 (tys & H2 & H3)]. split; auto.
     exists tys; split; auto. eapply Forall2_typed_ext; eauto.
   - rewrite Hc by congruence. destruct H as [H1 H2]. split; auto. eapply Forall2_typed_ext; eauto.
+  - rewrite Hc by congruence. destruct H as (c & H1 & H2 & H3 & (g & H4 & H5) & H6).
+    exists c. repeat split; auto. exists g. split; auto. eapply typed_ext; eauto.
+  - rewrite Hc by congruence. destruct H as (c & H1 & H2 & H3 & (g & H4 & H5) & H6).
+    exists c. repeat split; auto. exists g. split; auto. eapply typed_ext; eauto.
 Qed.
 
 Lemma stack_ok_ext phs heap phs' heap' st t :
@@ -279,8 +290,8 @@ Qed.
 
 Lemma cell_ok_heap heap more c : cell_ok heap c -> cell_ok (heap ++ more) c.
 Proof.
-  intros (H1 & H2 & H3). repeat split; auto. intros f Hf. destruct (H3 _ Hf) as (g & k & E1 & E2 & E3).
-  exists g, k. repeat split; auto. apply nth_error_app_l; auto.
+  intros (H1 & H2 & H3). repeat split; auto. intros f Hf. destruct (H3 _ Hf) as [E|(g & k & E1 & E2 & E3)]; auto.
+  right. exists g, k. repeat split; auto. apply nth_error_app_l; auto.
 Qed.
 
 (* ------------------------------------------------------------------------- *)
@@ -310,6 +321,9 @@ Lemma owned_frames_cons fr rest :
   if pc_eqb (f_pc fr) PLoad then owned_frames rest else f_ph fr :: owned_frames rest.
 Proof. unfold owned_frames. simpl. destruct (pc_eqb (f_pc fr) PLoad); reflexivity. Qed.
 
+Lemma owned_tail_incl_aux fr rest q : In q (owned_frames rest) -> In q (owned_frames (fr :: rest)).
+Proof. rewrite owned_frames_cons. destruct (pc_eqb (f_pc fr) PLoad); simpl; auto. Qed.
+
 Lemma frame_ok_cell phs heap fr :
   frame_ok phs heap fr -> f_pc fr <> PLoad -> exists c, nth_error phs (f_ph fr) = Some c /\ ph_ty c = f_ty fr.
 Proof.
@@ -318,6 +332,9 @@ Proof.
   - destruct H as (_ & c & H1 & H2 & _); eauto.
   - destruct H as ((c & H1 & H2 & _) & _); eauto.
   - destruct H as ((c & H1 & H2 & _) & _); eauto.
+  - destruct H as (c & H1 & H2 & _); eauto.
+  - destruct H as (c & H1 & H2 & _); eauto.
+  - destruct H as (c & H1 & H2 & _); eauto.
   - destruct H as (c & H1 & H2 & _); eauto.
   - destruct H as (c & H1 & H2 & _); eauto.
 Qed.
@@ -400,15 +417,23 @@ Hypothesis Hmap : forall t f, In (t, f) m -> typed phs heap f t.
 Hypothesis Hheap : forall g c, nth_error heap g = Some c -> Forall2 (typed phs heap) (clo_kids c) (kidtypes tt (clo_ty c)).
 Hypothesis Hcells : forall p c, nth_error phs p = Some c -> cell_ok heap c.
 
-(* the shared part does not change *)
+(* the cells and the heap do not change; the map may lose bindings *)
+Lemma step_out_sub th th' m' :
+  (forall t f, In (t, f) m' -> In (t, f) m) ->
+  thread_ok phs heap th' ->
+  (forall q, In q (owned_frames (th_stack th')) -> In q (owned_frames (th_stack th))) ->
+  NoDup (owned_frames (th_stack th')) ->
+  forall evs, step_out m phs heap th th' (mkShared m' phs heap evs).
+Proof.
+  intros H0 H1 H2 H3 evs. constructor; simpl; auto using ext_refl.
+Qed.
+
 Lemma step_out_same th th' :
   thread_ok phs heap th' ->
   (forall q, In q (owned_frames (th_stack th')) -> In q (owned_frames (th_stack th))) ->
   NoDup (owned_frames (th_stack th')) ->
   forall evs, step_out m phs heap th th' (mkShared m phs heap evs).
-Proof.
-  intros H1 H2 H3 evs. constructor; simpl; auto using ext_refl.
-Qed.
+Proof. intros. apply step_out_sub; auto. Qed.
 
 (* only the map gets a new binding *)
 Lemma step_out_map th th' t f :
@@ -517,6 +542,40 @@ Proof.
 Qed.
 
 (* the innermost frame changes its own cell *)
+Lemma step_out_cell_gen th th' fr rest c c' m' heap' more evs :
+  thread_ok phs heap th -> th_stack th = fr :: rest -> NoDup (owned_frames (fr :: rest)) ->
+  heap' = heap ++ more ->
+  f_pc fr <> PLoad ->
+  nth_error phs (f_ph fr) = Some c -> ~ stable c -> ph_ty c' = ph_ty c -> (ph_pub c = true -> ph_pub c' = true) ->
+  (forall t f, In (t, f) m' -> In (t, f) m \/ typed (upd phs (f_ph fr) c') heap' f t) ->
+  (forall k, In k more -> Forall2 (typed (upd phs (f_ph fr) c') heap') (clo_kids k) (kidtypes tt (clo_ty k))) ->
+  cell_ok heap' c' ->
+  (ext phs heap (upd phs (f_ph fr) c') heap' ->
+   (forall q, In q (owned_frames rest) -> nth_error (upd phs (f_ph fr) c') q = nth_error phs q) ->
+   thread_ok (upd phs (f_ph fr) c') heap' th') ->
+  (forall q, In q (owned_frames (th_stack th')) -> In q (owned_frames (fr :: rest))) ->
+  NoDup (owned_frames (th_stack th')) ->
+  step_out m phs heap th th' (mkShared m' (upd phs (f_ph fr) c') heap' evs).
+Proof.
+  intros Hth E Hnd -> Hpc Hc Hns Hty' Hpub Hm' Hmore Hc' Hth' Hown Hnd'.
+  assert (He : ext phs heap (upd phs (f_ph fr) c') (heap ++ more)).
+  { split; [eexists; reflexivity|]. intros q c0 Hq. destruct (Nat.eq_dec (f_ph fr) q) as [<-|Hne].
+    - right. assert (c0 = c) by congruence. subst c0. split; auto. exists c'. split; auto.
+      apply nth_error_upd_eq. eapply nth_error_Some_lt; eauto.
+    - left. rewrite nth_error_upd_neq; auto. }
+  rewrite owned_frames_cons in Hnd. rewrite (pc_eqb_PLoad_false _ Hpc) in Hnd. inversion Hnd as [|? ? Hnotin Hnd'']; subst.
+  constructor; simpl; auto.
+  - intros q Hq _. rewrite nth_error_upd_neq; auto. intro; subst q. apply Hq.
+    rewrite E. rewrite owned_frames_cons. rewrite (pc_eqb_PLoad_false _ Hpc). left; reflexivity.
+  - intros t f Hin. destruct (Hm' _ _ Hin) as [H|H]; auto. eapply typed_ext; eauto.
+  - apply heap_ok_ext; auto.
+  - intros p k Hp. destruct (Nat.eq_dec (f_ph fr) p) as [<-|Hne].
+    + rewrite nth_error_upd_eq in Hp by (eapply nth_error_Some_lt; eauto). congruence.
+    + rewrite nth_error_upd_neq in Hp by auto. apply cell_ok_heap. eauto.
+  - apply Hth'; auto. intros q Hq. apply nth_error_upd_neq. intro; subst q. contradiction.
+  - intros q Hq. left. rewrite E. auto.
+Qed.
+
 Lemma step_out_cell th fr fr' rest c c' m' heap' more evs :
   thread_ok phs heap th -> th_stack th = fr :: rest -> NoDup (owned_frames (fr :: rest)) ->
   heap' = heap ++ more ->
@@ -528,24 +587,35 @@ Lemma step_out_cell th fr fr' rest c c' m' heap' more evs :
   cell_ok heap' c' ->
   step_out m phs heap th (with_stack th (fr' :: rest)) (mkShared m' (upd phs (f_ph fr) c') heap' evs).
 Proof.
-  intros Hth E Hnd -> Hpc Hpc' Hph Hty Hc Hns Hty' Hpub Hfr Hm' Hmore Hc'.
-  assert (He : ext phs heap (upd phs (f_ph fr) c') (heap ++ more)).
-  { split; [eexists; reflexivity|]. intros q c0 Hq. destruct (Nat.eq_dec (f_ph fr) q) as [<-|Hne].
-    - right. assert (c0 = c) by congruence. subst c0. split; auto. exists c'. split; auto.
-      apply nth_error_upd_eq. eapply nth_error_Some_lt; eauto.
-    - left. rewrite nth_error_upd_neq; auto. }
-  rewrite owned_frames_cons in Hnd. rewrite (pc_eqb_PLoad_false _ Hpc) in Hnd. inversion Hnd as [|? ? Hnotin Hnd']; subst.
-  constructor; simpl; auto.
-  - intros q Hq _. rewrite nth_error_upd_neq; auto. intro; subst q. apply Hq.
-    rewrite E. rewrite owned_frames_cons. rewrite (pc_eqb_PLoad_false _ Hpc). left; reflexivity.
-  - intros t f Hin. destruct (Hm' _ _ Hin) as [H|H]; auto. eapply typed_ext; eauto.
-  - apply heap_ok_ext; auto.
-  - intros p k Hp. destruct (Nat.eq_dec (f_ph fr) p) as [<-|Hne].
-    + rewrite nth_error_upd_eq in Hp by (eapply nth_error_Some_lt; eauto). congruence.
-    + rewrite nth_error_upd_neq in Hp by auto. apply cell_ok_heap. eauto.
-  - eapply replace_top_ok; eauto. intros q Hq. apply nth_error_upd_neq. intro; subst q. contradiction.
-  - intros q. rewrite E. rewrite !owned_frames_cons. rewrite (pc_eqb_PLoad_false _ Hpc), (pc_eqb_PLoad_false _ Hpc'). rewrite Hph. auto.
-  - rewrite owned_frames_cons. rewrite (pc_eqb_PLoad_false _ Hpc'). rewrite Hph. constructor; auto.
+  intros Hth E Hnd Hh Hpc Hpc' Hph Hty Hc Hns Hty' Hpub Hfr Hm' Hmore Hc'.
+  pose proof Hnd as Hnd0.
+  rewrite owned_frames_cons in Hnd0. rewrite (pc_eqb_PLoad_false _ Hpc) in Hnd0.
+  eapply step_out_cell_gen; eauto.
+  - intros He Hun. eapply replace_top_ok; eauto.
+  - intros q. cbn [th_stack with_stack]. rewrite !owned_frames_cons. rewrite (pc_eqb_PLoad_false _ Hpc), (pc_eqb_PLoad_false _ Hpc'). rewrite Hph. auto.
+  - cbn [th_stack with_stack]. rewrite owned_frames_cons. rewrite (pc_eqb_PLoad_false _ Hpc'). rewrite Hph. exact Hnd0.
+Qed.
+
+(* a failing request hands the panic to the enclosing request *)
+Lemma pop_to_parent_ok th fr parent rest' phs' heap' :
+  thread_ok phs heap th -> th_stack th = fr :: parent :: rest' ->
+  ext phs heap phs' heap' ->
+  (forall q, In q (owned_frames (parent :: rest')) -> nth_error phs' q = nth_error phs q) ->
+  thread_ok phs' heap' (with_stack th (mkFrame (f_ty parent) (f_ph parent) PDel [] (f_got parent) :: rest')).
+Proof.
+  intros Hth E He Hun.
+  destruct (thread_ok_stack_inv _ _ _ Hth E) as (t & v & t' & v' & w & Ec & Ew & Hs & Hw & Htr & Hd).
+  split; simpl; auto. rewrite Ec. split; [|split].
+  - right. exists t', v', w. split; auto.
+    simpl in Hs. destruct Hs as (_ & Hpc & _ & Hp & Hrest).
+    assert (Hown : In (f_ph parent) (owned_frames (parent :: rest'))).
+    { rewrite owned_frames_cons. rewrite Hpc. simpl. auto. }
+    simpl. split.
+    + unfold frame_ok in *. simpl. rewrite Hpc in Hp. destruct Hp as [Hcell _]. rewrite (Hun _ Hown). exact Hcell.
+    + destruct rest' as [|gp rest'']; auto. destruct Hrest as (H1 & H2 & H3). split; [exact H1|]. split; [exact H2|].
+      eapply stack_ok_ext; eauto. intros fr0 Hin Hpc0. apply Hun. apply owned_tail_incl_aux. apply in_owned_frames; auto.
+  - eapply Forall_impl; [|exact Hw]. intros; eapply witem_ok_ext; eauto.
+  - rewrite (flat_map_wexp_ext _ _ _ _ _ He Hw). exact Htr.
 Qed.
 
 Lemma NoDup_owned_tail fr rest : NoDup (owned_frames (fr :: rest)) -> NoDup (owned_frames rest).
@@ -584,7 +654,7 @@ Proof.
            ++ rewrite Ew. exact Htr.
         -- unfold owned_frames; simpl. contradiction.
         -- unfold owned_frames; simpl. constructor.
-      * destruct f as [g|p].
+      * destruct f as [g|p|]; [| |destruct Hwi as [t1 []]].
         -- (* a generated function runs *)
            destruct v0 as [subs]. destruct Hwi as [t1 (c & Hg & Ht1)]. rewrite Hg in H. inversion H; subst; clear H.
            apply step_out_same; simpl; [|contradiction|constructor].
@@ -605,14 +675,19 @@ Proof.
            ++ rewrite E; constructor.
       * (* the plain read after Wait *)
         destruct Hwi as (c & Hp & Hpub & Hz & Hv). rewrite Hp in H.
-        destruct (ph_var c) as [f|] eqn:Ev; [|congruence]. inversion H; subst; clear H.
-        destruct (Hcells _ _ Hp) as (_ & _ & Hc3). destruct (Hc3 _ Ev) as (g & k & -> & Hg & Hk).
-        apply step_out_same; simpl.
-        -- split; simpl; auto. rewrite Ec. split; [left; exact E|]. split.
-           ++ constructor; auto. simpl. exists (ph_ty c), k. auto.
-           ++ simpl in *. rewrite Hp in Htr. rewrite Hg. simpl. rewrite Hk. exact Htr.
-        -- rewrite E; simpl; contradiction.
-        -- rewrite E; constructor.
+        destruct (ph_var c) as [f|] eqn:Ev; [|congruence].
+        destruct (Hcells _ _ Hp) as (_ & _ & Hc3). destruct (Hc3 _ Ev) as [-> | (g & k & -> & Hg & Hk)].
+        -- (* the failed generation's error *)
+           inversion H; subst; clear H. apply step_out_same.
+           ++ apply panic_ok; auto.
+           ++ rewrite panic_stack. simpl. contradiction.
+           ++ rewrite panic_stack. constructor.
+        -- inversion H; subst; clear H. apply step_out_same; simpl.
+           ++ split; simpl; auto. rewrite Ec. split; [left; exact E|]. split.
+              ** constructor; auto. simpl. exists (ph_ty c), k. auto.
+              ** simpl in *. rewrite Hp in Htr. rewrite Hg. simpl. rewrite Hk. exact Htr.
+           ++ rewrite E; simpl; contradiction.
+           ++ rewrite E; constructor.
   - (* a cache request is in progress *)
     destruct (thread_ok_stack_inv _ _ _ Hth E) as (t & v & t' & v' & w & Ec & Ew & Hs & Hw & Htr & Hd).
     pose proof (stack_ok_frames _ _ _ _ Hs) as Hfrs. inversion Hfrs as [|? ? Hfr Hfrs']; subst.
@@ -674,10 +749,12 @@ Proof.
         -- repeat split; simpl; auto; try congruence; try (rewrite Hvar; discriminate).
     + (* generating *)
       destruct (is_bad tt (f_ty fr)).
-      * inversion H; subst; clear H. apply step_out_same.
-        -- apply panic_ok; auto.
-        -- rewrite panic_stack. simpl. contradiction.
-        -- rewrite panic_stack. constructor.
+      * (* the generator panics: the deferred function starts *)
+        inversion H; subst; clear H. apply step_out_same.
+        -- eapply replace_top_ok; eauto using ext_refl. unfold frame_ok in *; simpl. rewrite Epc in Hfr.
+           destruct Hfr as [Hcell _]. exact Hcell.
+        -- intro q. cbn [th_stack with_stack]. rewrite E. rewrite !owned_frames_cons. cbn [f_pc f_ph]. rewrite Epc. cbn [pc_eqb]. auto.
+        -- cbn [th_stack with_stack]. rewrite owned_frames_cons in *. cbn [f_pc f_ph]. rewrite Epc in Hnd. cbn [pc_eqb] in *. exact Hnd.
       * destruct (f_todo fr) as [|k todo] eqn:Etodo.
         -- (* all element functions obtained *)
            inversion H; subst; clear H. apply step_out_same.
@@ -704,29 +781,68 @@ Proof.
                (heap ++ [mkClo (f_ty fr) (f_got fr)]) [mkClo (f_ty fr) (f_got fr)] [EWrite (f_ph fr)] Hth E Hnd eq_refl); simpl; auto; try congruence.
       * unfold stable. intros (_ & _ & Hv). congruence.
       * unfold frame_ok; simpl. eexists. split; [apply nth_error_upd_eq; eapply nth_error_Some_lt; eauto|]. simpl.
-        repeat split; auto. discriminate.
+        split; auto. split; auto. split; auto. exists (length heap). split; auto.
+        simpl. eexists. split; [apply nth_error_snoc | reflexivity].
       * intros k [<-|[]]. simpl. eapply Forall2_typed_ext; eauto.
-      * repeat split; simpl; auto; try congruence. intros f Hf. inversion Hf; subst.
+      * split; [|split]; simpl; try congruence. intros f Hf. inversion Hf; subst. right.
         exists (length heap), (mkClo (f_ty fr) (f_got fr)). split; auto. split; [apply nth_error_snoc|]. simpl. congruence.
     + (* Done *)
-      unfold frame_ok in Hfr. rewrite Epc in Hfr. destruct Hfr as (c & Hc & Hty & Hcnt & Hvar & Hpub).
+      unfold frame_ok in Hfr. rewrite Epc in Hfr. destruct Hfr as (c & Hc & Hty & Hcnt & (g0 & Hvar & Htyped) & Hpub).
       rewrite Hc in H. inversion H; subst; clear H.
       apply (step_out_cell th fr (mkFrame (f_ty fr) (f_ph fr) PStore [] (f_got fr)) rest c (set_cnt c (N.pred (ph_cnt c))) m heap [] [EDone (f_ph fr)]
                Hth E Hnd (eq_sym (app_nil_r heap))); simpl; auto; try congruence.
       * unfold stable. intros (_ & Hz & _). lia.
       * unfold frame_ok; simpl. eexists. split; [apply nth_error_upd_eq; eapply nth_error_Some_lt; eauto|]. simpl.
-        rewrite Hcnt. repeat split; auto.
+        rewrite Hcnt. repeat split; auto. exists g0. split; auto.
       * intros k [].
       * destruct (Hcells _ _ Hc) as (H1 & H2 & H3). split; [|split]; simpl.
         -- intro Hp. congruence.
         -- intros _ Hv. congruence.
         -- exact H3.
     + (* Store *)
-      unfold frame_ok in Hfr. rewrite Epc in Hfr. destruct Hfr as (c & Hc & Hty & Hcnt & Hvar & Hpub).
-      rewrite Hc in H. destruct (ph_var c) as [f|] eqn:Ev; [|congruence]. inversion H; subst; clear H.
-      destruct (Hcells _ _ Hc) as (_ & _ & H3). destruct (H3 _ Ev) as (g & k & -> & Hg & Hk).
-      assert (Hf : typed phs heap (FGen g) (f_ty fr)) by (simpl; exists k; split; congruence).
+      unfold frame_ok in Hfr. rewrite Epc in Hfr. destruct Hfr as (c & Hc & Hty & Hcnt & (g & Hvar & Hf) & Hpub).
+      rewrite Hc in H. rewrite Hvar in H. inversion H; subst; clear H.
       apply step_out_map; [exact Hf | apply (ret_ok _ _ _ _ Hth E Hf) | rewrite E; apply Hret; exact Hf | apply Hretnd; exact Hf].
+    + (* failure path: Delete *)
+      inversion H; subst; clear H. apply step_out_sub.
+      * intros t0 f Hin. clear - Hin. induction m as [|[t1 f1] m0 IH]; simpl in *; [contradiction|].
+        destruct (t1 =? f_ty fr); [right; auto|]. destruct Hin as [Hin|Hin]; auto.
+      * eapply replace_top_ok; eauto using ext_refl. unfold frame_ok in *; simpl. rewrite Epc in Hfr. exact Hfr.
+      * intro q. cbn [th_stack with_stack]. rewrite E. rewrite !owned_frames_cons. cbn [f_pc f_ph]. rewrite Epc. cbn [pc_eqb]. auto.
+      * cbn [th_stack with_stack]. rewrite owned_frames_cons in *. cbn [f_pc f_ph]. rewrite Epc in Hnd. cbn [pc_eqb] in *. exact Hnd.
+    + (* failure path: the plain write of the error function *)
+      unfold frame_ok in Hfr. rewrite Epc in Hfr. destruct Hfr as (c & Hc & Hty & Hcnt & Hvar & Hpub).
+      rewrite Hc in H. inversion H; subst; clear H.
+      apply (step_out_cell th fr (mkFrame (f_ty fr) (f_ph fr) PDErr [] (f_got fr)) rest c (set_var c FErr) m heap [] [EWrite (f_ph fr)]
+               Hth E Hnd (eq_sym (app_nil_r heap))); simpl; auto; try congruence.
+      * unfold stable. intros (_ & _ & Hv). congruence.
+      * unfold frame_ok; simpl. eexists. split; [apply nth_error_upd_eq; eapply nth_error_Some_lt; eauto|]. simpl. auto.
+      * intros k [].
+      * split; [|split]; simpl; try congruence. intros f Hf0. inversion Hf0; subst. left; reflexivity.
+    + (* failure path: Done, the panic goes on *)
+      unfold frame_ok in Hfr. rewrite Epc in Hfr. destruct Hfr as (c & Hc & Hty & Hcnt & Hvar & Hpub).
+      rewrite Hc in H. inversion H; subst; clear H.
+      assert (Hpc : f_pc fr <> PLoad) by congruence.
+      eapply (step_out_cell_gen th _ fr rest c (set_cnt c (N.pred (ph_cnt c))) m heap [] [EDone (f_ph fr)]
+               Hth E Hnd (eq_sym (app_nil_r heap)) Hpc Hc); simpl; auto.
+      * unfold stable. intros (_ & Hz & _). lia.
+      * intros k [].
+      * destruct (Hcells _ _ Hc) as (H1 & H2 & H3). split; [|split]; simpl; auto.
+        -- intro Hp. congruence.
+        -- intros _ Hv. congruence.
+      * intros He Hun. destruct rest as [|parent rest'].
+        -- apply panic_ok. exact Hd.
+        -- eapply pop_to_parent_ok; eauto.
+      * intros q Hq. destruct rest as [|parent rest'].
+        -- rewrite panic_stack in Hq. simpl in Hq. contradiction.
+        -- cbn [th_stack with_stack] in Hq. rewrite owned_frames_cons in Hq. cbn [f_pc f_ph pc_eqb] in Hq.
+           apply owned_tail_incl. simpl in Hs. destruct Hs as (_ & Hpp & _).
+           rewrite owned_frames_cons. rewrite Hpp. cbn [pc_eqb]. exact Hq.
+      * destruct rest as [|parent rest'].
+        -- rewrite panic_stack. constructor.
+        -- cbn [th_stack with_stack]. rewrite owned_frames_cons. cbn [f_pc f_ph pc_eqb].
+           apply NoDup_owned_tail in Hnd. simpl in Hs. destruct Hs as (_ & Hpp & _).
+           rewrite owned_frames_cons in Hnd. rewrite Hpp in Hnd. cbn [pc_eqb] in Hnd. exact Hnd.
 Qed.
 
 End Step.
